@@ -39,6 +39,8 @@ def run (c obs : String) : String × String × Bool :=
     | ["run", x] =>
       -- a call that finds the task past RUNNING goes through its wait loop without waiting
       let s' := wakeAll (step true s (.runEnter (idxOf names x))); (s', outs ++ [entry names s s'])
+    | ["cancel", x] =>
+      let s' := wakeAll (step true s (.cancel (idxOf names x))); (s', outs ++ [entry names s s'])
     | ["discard", x] => let s' := step true s (.discEnter (idxOf names x)); (s', outs ++ [entry names s s'])
     | ["fin", o] =>
       match findTh s (· == .exec) with
